@@ -253,6 +253,17 @@ func createOptimisedTransport(config *Configuration) *http.Transport {
 	}
 }
 
+// endpointKey is what per-endpoint state (connection pool, circuit breaker) is kept under.
+// Names are not guaranteed to be unique - nothing rejects two endpoints with the same name -
+// and endpoints that shared a key would share a breaker: one's failures would shut out the other.
+// The URL is what makes an endpoint; the name is only used when no URL is set.
+func endpointKey(endpoint *domain.Endpoint) string {
+	if endpoint.URLString != "" {
+		return endpoint.URLString
+	}
+	return endpoint.Name
+}
+
 // getOrCreateEndpointPool returns a connection pool for the endpoint
 func (s *Service) getOrCreateEndpointPool(endpoint string) *connectionPool {
 	if pool, ok := s.endpointPools.Load(endpoint); ok {
@@ -448,7 +459,7 @@ func (s *Service) handlePanic(ctx context.Context, w http.ResponseWriter, r *htt
 // selectEndpointWithCircuitBreaker selects an endpoint that has a healthy circuit breaker
 func (s *Service) selectEndpointWithCircuitBreaker(endpoints []*domain.Endpoint, rlog logger.StyledLogger) (*domain.Endpoint, *circuitBreaker) {
 	for _, ep := range endpoints {
-		cb := s.GetCircuitBreaker(ep.Name)
+		cb := s.GetCircuitBreaker(endpointKey(ep))
 		stateBefore := atomic.LoadInt64(&cb.state)
 		if !cb.IsOpen() {
 			stateAfter := atomic.LoadInt64(&cb.state)
@@ -500,7 +511,7 @@ func (s *Service) prepareProxyRequest(ctx context.Context, r *http.Request, targ
 // executeBackendRequest executes the request to the backend
 func (s *Service) executeBackendRequest(ctx context.Context, endpoint *domain.Endpoint, proxyReq *http.Request, cb *circuitBreaker, stats *ports.RequestStats, rlog logger.StyledLogger) (*http.Response, error) {
 	// Get connection pool for this endpoint
-	pool := s.getOrCreateEndpointPool(endpoint.Name)
+	pool := s.getOrCreateEndpointPool(endpointKey(endpoint))
 
 	// Execute request
 	rlog.Debug("making round-trip request", "target", proxyReq.URL.String())
